@@ -729,6 +729,13 @@ def access_kind(f, n):
             return 'call'
         if k == 'VarDecl' and (p.get('t') or '').endswith('&') and not (p.get('t') or '').endswith('&&') and \
                 not (p.get('t') or '').startswith('const ') and 'const &' not in (p.get('t') or ''):
+            if (p.get('name') or '').startswith('__range'):
+                # the container of a range-for: written through only if the loop variable is a non-const reference
+                loop = next((a for a in f.ancestors(p) if a['k'] == 'CXXForRangeStmt'), None)
+                lv = [x for x in walk(loop) if x['k'] == 'VarDecl' and not (x.get('name') or '').startswith('__')] if loop else []
+                t = (lv[0].get('t') or '') if lv else '&'
+                if not t.endswith('&') or t.startswith('const ') or 'const &' in t:
+                    return 'read'
             return 'addr'        # bound to a non-const reference: may be written through it
         if k == 'BinaryOperator' and p.get('op') in ASSIGN_OPS and kids(p)[0] is cur:
             return 'write' if p['op'] == '=' else 'rmw'
